@@ -495,8 +495,11 @@ class Dict(dict, base.Symbolic, pg_typing.CustomTyping):
     """Symbolic hashing."""
     return base.sym_hash(
         (self.__class__,
-         tuple([(k, base.sym_hash(v)) for k, v in self.sym_items()
-                if v != pg_typing.MISSING_VALUE])))
+         # NOTE: hashing ignores the key order, as symbolic equality does.
+         tuple(sorted(
+             [(k, base.sym_hash(v)) for k, v in self.sym_items()
+              if v != pg_typing.MISSING_VALUE],
+             key=lambda kv: (isinstance(kv[0], str), kv[0])))))
 
   def _sym_getattr(  # pytype: disable=signature-mismatch  # overriding-parameter-type-checks
       self, key: Union[str, int]) -> Any:
